@@ -209,15 +209,38 @@ def run_shards(module: Any, shard_list: list[Any], workers: int) -> list[Any]:
     global _MODULE  # noqa: PLW0603
     _MODULE = module
     results: list[Any] = [None] * len(shard_list)
-    if workers <= 1 or len(shard_list) <= 1:
+    if workers <= 1:
         for index, shard in enumerate(shard_list):
             results[index] = _run_shard_wrapper((module, index, shard))[1]
         return results
+    # maxtasksperchild=1: every shard runs in a process freshly forked from the (unpolluted) parent, so what a shard
+    # observes depends only on the shard itself, also when the implementation keeps process-global state
+    # (module-level caches, plug-in objects shared between managers).  This makes shard re-runs exact replays.
     ctx = mp.get_context("fork")
-    with ctx.Pool(min(workers, len(shard_list))) as pool:
+    with ctx.Pool(min(workers, len(shard_list)), maxtasksperchild=1) as pool:
         for index, res in pool.imap_unordered(_pool_entry, list(enumerate(shard_list)), chunksize=1):
             results[index] = res
     return results
+
+
+def _fork_call(args: tuple[str, Any]) -> Any:
+    kind, payload = args
+    try:
+        if kind == "case":
+            judgement = _MODULE.run_case(payload)
+            return [sig for sig, _ in judgement.violations]
+        return _MODULE.run_shard(payload)
+    except Exception:  # noqa: BLE001
+        return "INTERNAL " + traceback.format_exc()
+
+
+def in_fresh_process(module: Any, kind: str, payload: Any) -> Any:
+    """Run `run_case` / `run_shard` in a process forked from the parent, which itself never executes the implementation."""
+    global _MODULE  # noqa: PLW0603
+    _MODULE = module
+    ctx = mp.get_context("fork")
+    with ctx.Pool(1, maxtasksperchild=1) as pool:
+        return pool.apply(_fork_call, ((kind, payload),))
 
 
 def main(module: Any, argv: list[str] | None = None) -> int:
@@ -298,21 +321,19 @@ def main(module: Any, argv: list[str] | None = None) -> int:
     exit_code = 0
     # Replay discipline: re-execute before reporting.
     for item in new_violations:
-        try:
-            again = module.run_case(item["case"])
-            sigs = {sig for sig, _ in again.violations}
-        except Exception:  # noqa: BLE001
+        again = in_fresh_process(module, "case", item["case"])
+        if isinstance(again, str):
             print(f"NONDETERMINISM property={prop}: replay of a failing case crashed")
-            traceback.print_exc()
+            print(again)
             return 2
+        sigs = set(again)
         if item["signature"] not in sigs:
             # The case may depend on the history of its shard (objects shared between the cases of a shard, e.g. a
             # filter with stale internal state).  Re-run the whole shard: if the same case fails the same way again
             # the violation is deterministic and history dependent; the replay artefact is then the shard.
             shard = shard_list[item["shard_index"]]
-            try:
-                second = module.run_shard(shard)
-            except Exception:  # noqa: BLE001
+            second = in_fresh_process(module, "shard", shard)
+            if isinstance(second, str):
                 second = None
             reproduced = second is not None and any(
                 k["signature"] == item["signature"] and k["case"] == item["case"] for k in second.kept
